@@ -36,6 +36,10 @@ pub struct Scenario {
     /// offset of all command timestamps (so that i64::MIN itself and negative times occur)
     #[serde(default)]
     pub time_base: i64,
+    /// bit (8*device + terminal) set: that free terminal is left unconnected (a spare / free-standing terminal, read and
+    /// written directly) instead of getting an external partner
+    #[serde(default)]
+    pub free_mask: u64,
 }
 
 struct Node {
@@ -108,7 +112,7 @@ pub fn check(s: &Scenario) -> CheckResult {
             if joined_next {
                 let (a, b) = (nodes[k].dev.terms[j], nodes[k + 1].dev.terms[in_idx(&nodes[k + 1].spec)]);
                 connect(a, b);
-            } else if !joined_prev {
+            } else if !joined_prev && s.free_mask >> ((8 * k + j) % 64) & 1 == 0 {
                 let e = arena.terminal();
                 connect(nodes[k].dev.terms[j], e);
                 nodes[k].ext[j] = Some(e);
@@ -256,13 +260,13 @@ fn round() -> BoxedStrategy<Round> {
 pub struct C13;
 impl Property for C13 {
     const ID: &'static str = "C13";
-    const RULE: &'static str = "chains of 1..5 one-DOF devices (Invert, GearTrain by ratio in +-[1e-2,1e2] or tooth list, Axle<1..6>) joined terminal to terminal, free terminals connected to external terminals; 1..8 rounds, each issuing 0..4 commands (any kind, finite value, globally distinct timestamps in random age order) on device terminals or external terminals, then updating all devices in chain order, reverse order or a random permutation; plus a differential with commands (and optionally states) on its terminals. Oracle per device update, relative to the command reads just before it: every terminal afterwards reads the most recently issued command among those present, with the issuer's timestamp and kind and the value mapped issuer side -> reader side (negate / x ratio / : ratio / identity) within 2 ulp; after an in-order pass the far end of the chain reads the globally newest command scaled by the product of the ratios (2 ulp per hop); a differential leaves command slots and reads bit-identical. Non-trivial = competing commands with different timestamps at one device, or a chain of >= 3 devices; distinct = (device chain, per-round issue pattern and update order).";
+    const RULE: &'static str = "chains of 1..5 one-DOF devices (Invert, GearTrain by ratio in +-[1e-2,1e2] or tooth list, Axle<1..6>) joined terminal to terminal, free terminals connected to external terminals or (a random subset, or all) left unconnected; 1..8 rounds, each issuing 0..4 commands (any kind, finite value, globally distinct timestamps in random age order) on device terminals or external terminals, then updating all devices in chain order, reverse order or a random permutation; plus a differential with commands (and optionally states) on its terminals. Oracle per device update, relative to the command reads just before it: every terminal afterwards reads the most recently issued command among those present, with the issuer's timestamp and kind and the value mapped issuer side -> reader side (negate / x ratio / : ratio / identity) within 2 ulp; after an in-order pass the far end of the chain reads the globally newest command scaled by the product of the ratios (2 ulp per hop); a differential leaves command slots and reads bit-identical. Non-trivial = competing commands with different timestamps at one device, or a chain of >= 3 devices; distinct = (device chain, per-round issue pattern and update order).";
     type Scenario = Scenario;
     fn strategy(_tier: Tier) -> BoxedStrategy<Scenario> {
         let base = || prop_oneof![4 => Just(0i64), 2 => Just(i64::MIN), 1 => -100_000i64..0, 1 => any::<i64>().prop_map(|t| t.clamp(i64::MIN, i64::MAX - 1_000_000_000))];
-        let chain = (proptest::collection::vec(one_dof(), 1..=5), proptest::collection::vec(round(), 1..=8), base()).prop_map(|(devs, rounds, time_base)| Scenario { devs, rounds, with_states: false, time_base });
-        let single_axle1 = (proptest::collection::vec(round(), 1..=4)).prop_map(|rounds| Scenario { devs: vec![DevSpec::Axle(1)], rounds, with_states: false, time_base: 0 });
-        let diff = ((0u8..4), proptest::collection::vec(round(), 1..=6), any::<bool>()).prop_map(|(mode, rounds, with_states)| Scenario { devs: vec![DevSpec::Diff(mode)], rounds, with_states, time_base: 0 });
+        let chain = (proptest::collection::vec(one_dof(), 1..=5), proptest::collection::vec(round(), 1..=8), base(), prop_oneof![3 => Just(0u64), 1 => any::<u64>(), 1 => Just(u64::MAX)]).prop_map(|(devs, rounds, time_base, free_mask)| Scenario { devs, rounds, with_states: false, time_base, free_mask });
+        let single_axle1 = (proptest::collection::vec(round(), 1..=4)).prop_map(|rounds| Scenario { devs: vec![DevSpec::Axle(1)], rounds, with_states: false, time_base: 0, free_mask: 0 });
+        let diff = ((0u8..4), proptest::collection::vec(round(), 1..=6), any::<bool>()).prop_map(|(mode, rounds, with_states)| Scenario { devs: vec![DevSpec::Diff(mode)], rounds, with_states, time_base: 0, free_mask: 0 });
         prop_oneof![8 => chain, 1 => single_axle1, 2 => diff].boxed()
     }
     fn cases(tier: Tier) -> u32 {
